@@ -111,6 +111,16 @@ func Run(r *core.Run) {
 			cases = append(cases, c)
 		}
 	}
+	// parties configured with a wrong secret input, or with Paillier / ring-Pedersen parameters copied from another party
+	cases = append(cases, fault.ConfigCases("eddsa-signing", []int{0, 1, 2}, nil)...)
+	cases = append(cases, fault.ConfigCases("eddsa-resharing", []int{0, 1}, nil)...)
+	cases = append(cases, fault.ConfigCases("ecdsa-signing", []int{0, 1}, nil)...)
+	cases = append(cases, fault.ConfigCases("ecdsa-resharing", []int{0, 1}, map[int]int{2: 3, 3: 2})...)
+	cases = append(cases, fault.ConfigCases("ecdsa-keygen", nil, map[int]int{0: 1, 1: 0})...)
+	if full {
+		cases = append(cases, fault.ConfigCases("ecdsa-signing-3", []int{0, 1, 2}, nil)...)
+		cases = append(cases, fault.ConfigCases("ecdsa-keygen-3", nil, map[int]int{0: 2, 2: 0, 1: 2})...)
+	}
 	for i := range cases {
 		cases[i].ID = i
 	}
@@ -128,6 +138,9 @@ func Run(r *core.Run) {
 		slot := c.Dev.MsgType + "/" + c.Dev.Field
 		if c.Dev.Field == "" {
 			slot = c.Dev.MsgType + "/<mirror>"
+		}
+		if c.Dev.MsgType == "<config>" {
+			slot = "config/" + strings.SplitN(c.Dev.Op, ":", 2)[0]
 		}
 		rec := map[string]interface{}{"scenario": c.Scenario, "deviator": c.Deviator, "deviation": c.Dev, "outcome": o}
 		cls := "undetected-harmless"
@@ -171,7 +184,7 @@ func Run(r *core.Run) {
 			if len(foreign) > 0 {
 				r.Violate(fmt.Sprintf("%s/blames-innocent/%s/round%d", fam, slot, e.Round), fmt.Sprintf("honest node %d blames node(s) %v for a deviation of node %d (%s): %s", e.Node, foreign, c.Deviator, c.Dev.Sig(), e.Text), rec)
 			}
-			if !namesDev && !notCovered[fam+"/"+c.Dev.MsgType+"/"+c.Dev.Field] && c.Dev.Field != "" && len(foreign) == 0 {
+			if !namesDev && !notCovered[fam+"/"+c.Dev.MsgType+"/"+c.Dev.Field] && c.Dev.Field != "" && len(foreign) == 0 && c.Dev.MsgType != "<config>" {
 				r.Violate(fmt.Sprintf("%s/no-blame-for-covered-value/%s/round%d", fam, slot, e.Round), fmt.Sprintf("honest node %d reports an error for an altered value that is covered by a commitment/share check/proof but does not name the deviating node %d (%s): %s", e.Node, c.Deviator, c.Dev.Sig(), e.Text), rec)
 			}
 		}
